@@ -99,14 +99,14 @@ func scionQuiesce() {
 // runMainLeg runs a leg of the monitors that lives inside the service's own package (see
 // harness/mainleg): the test binary of package main, built by the check script with the leg's file
 // laid over the repository, is run with VERIF_MAINLEG=name and its report merged into r.
-func runMainLeg(r *ev.Run, name string) {
+func runMainLeg(r *ev.Run, name string, extraEnv ...string) {
 	bin := os.Getenv("VERIF_MAIN_TEST")
 	if bin == "" {
 		r.Set("main_package_leg:"+name, "not run: the service's test binary was not built")
 		return
 	}
 	cmd := exec.Command(bin, "-test.run", "TestVerifMainLeg", "-test.timeout", "120s")
-	cmd.Env = append(os.Environ(), "VERIF_MAINLEG="+name)
+	cmd.Env = append(append(os.Environ(), "VERIF_MAINLEG="+name), extraEnv...)
 	out, err := cmd.CombinedOutput()
 	done := false
 	for _, ln := range strings.Split(string(out), "\n") {
@@ -120,6 +120,8 @@ func runMainLeg(r *ev.Run, name string) {
 			var n int64
 			fmt.Sscan(strings.TrimPrefix(ln, "MAINLEG EVAL "), &n)
 			r.Eval(n)
+		case strings.HasPrefix(ln, "MAINLEG INCONCLUSIVE "):
+			r.Inconclusive("leg " + name + " inside the service's own package: " + strings.TrimPrefix(ln, "MAINLEG INCONCLUSIVE "))
 		case ln == "MAINLEG DONE":
 			done = true
 		}
